@@ -30,6 +30,7 @@ mutual
     | .whileE c body => pureE c && pureSs body
     | .foreachE _ _ v body => pureE v && pureSs body
     | .switchE v cs => pureE v && pureCases cs
+    | .infix op (.ident _) r => isCompound op && pureE r
     | _ => false
   def pureCases : List Case → Bool
     | [] => true
@@ -97,6 +98,20 @@ mutual
           match resetVal iv with
           | .ok it => execIter M obj f idx x body it 0 env.addScope o
           | .error e => .failed e env.addScope o
+    | _ + 1, .infix op (.ident name) r, env, out =>
+        -- compound assignment `name op= r`: the variable's value, then `r`, then the operator; the result is stored
+        match compoundOp op with
+        | none => .failed .unsupported env out
+        | some o =>
+          match evalE M obj env (.ident name) out with
+          | (.error e, o1) => .failed e env o1
+          | (.ok lv, o1) =>
+            match evalE M obj env r o1 with
+            | (.error e, o2) => .failed e env o2
+            | (.ok rv, o2) =>
+              match binop M o lv rv with
+              | .error e => .failed e env o2
+              | .ok (v, o3) => .normal (env.set name v) (o2 ++ o3)
     | f + 1, .switchE v cs, env, out =>
         match execArms M obj f v cs env out with
         | .done o => o
@@ -922,6 +937,101 @@ theorem step_E (ctx : Ctx M code) (f : Nat) (ih : SIH M obj code f) :
           apply chain hrun1 n2
           intro fuel; rw [ih2 fuel, hb]; simp [afterS, Nat.add_assoc]
         exact ⟨1 + (n2 + n1), k1 + k2 + 1, hfin _ _ env2 o2 hrun2⟩
+  | «infix» op l r =>
+    cases l with
+    | ident name =>
+      simp only [stmtE, Bool.and_eq_true] at hpure
+      obtain ⟨hcomp, hpr⟩ := hpure
+      simp only [compileExpr, bind_ok_eq, pure, Except.pure] at h
+      obtain ⟨⟨cl, st1⟩, h1, ⟨cr, st2⟩, h2, h3⟩ := h
+      simp only [hcomp, ↓reduceIte] at h3
+      cases hco : compoundOp op with
+      | none => simp [hco] at h3
+      | some o =>
+        simp only [hco] at h3
+        cases h3
+        have hbin : isBinary o = true := by
+          unfold compoundOp at hco; split at hco <;> first | (cases hco; rfl) | cases hco
+        have hol : o.length = 1 := compoundOp_len hco
+        have s1 := compileExpr_size (.ident name) base cst _ h1
+        have s2 := compileExpr_size r _ _ _ h2
+        have r2 := compileExpr_R r _ _ _ h2
+        simp only at s1 s2 r2
+        have hsl : (Expr.ident name).size = 3 := by simp [Expr.size]
+        have hcl : CodeAt code base cl := hc.left.left
+        have hcr : CodeAt code (base + (Expr.ident name).size) cr := by
+          have := hc.left.right; rwa [s1] at this
+        have hop : CodeAt code (base + (Expr.ident name).size + r.size) [⟨o, 0⟩, (withConst st2 .constant (.str name)).1, ⟨.set, 0⟩] := by
+          have := hc.right
+          simp only [codeSize_append, s1, s2] at this
+          exact this.cast (by omega)
+        have hk : CodeAt code (base + (Expr.ident name).size + r.size + 1) [(withConst st2 .constant (.str name)).1, ⟨.set, 0⟩] := by
+          have := hop.tail; simpa only [Instr.size, hol] using this
+        have hset : CodeAt code (base + (Expr.ident name).size + r.size + 1 + 3) [⟨.set, 0⟩] := by
+          have := hk.tail; simpa [Instr.size, withConst_op, Op.length] using this
+        obtain ⟨cn, hget, _, hinsp⟩ := withConst_pool st2 .constant (.str name) M.consts hp
+        have hlt : (withConst st2 .constant (.str name)).1.arg < 65536 := by
+          have := (List.getElem?_eq_some_iff.mp hget).1
+          have := ctx.pool; omega
+        have hkop : (withConst st2 .constant (.str name)).1.op = .constant := rfl
+        have harg : storedArg (withConst st2 .constant (.str name)).1 = (withConst st2 .constant (.str name)).1.arg := by
+          simp [storedArg, hkop, Op.length, Nat.mod_eq_of_lt hlt]
+        have p2 : ∃ ex, M.consts = st2.consts ++ ex := pool_trans hp (addConstant_ext st2 (.str name))
+        have p1 : ∃ ex, M.consts = st1.consts ++ ex := pool_trans p2 r2.ext
+        obtain ⟨n1, k1, ih1⟩ := expr_ok (.ident name) base cst _ (by simp [pureE]) h1 M obj code ctx hcl p1 stack env out polls depth
+        simp only [execE, hco]
+        cases hev : evalE M obj env (.ident name) out with
+        | mk res o1 =>
+          cases res with
+          | error x => exact ⟨n1, k1, fun fuel => by rw [ih1 fuel, hev]; simp [after, afterS]⟩
+          | ok lv =>
+            have hrun1 : ∀ fuel, loop M obj code (fuel + n1) base stack ⟨env, out, polls, depth⟩ =
+                loop M obj code fuel (base + (Expr.ident name).size) (lv :: stack) ⟨env, o1, polls + k1, depth⟩ := by
+              intro fuel; rw [ih1 fuel, hev]; rfl
+            obtain ⟨n2, k2, ih2⟩ := expr_ok r _ _ _ hpr h2 M obj code ctx hcr p2 (lv :: stack) env o1 (polls + k1) depth
+            simp only []
+            cases hev2 : evalE M obj env r o1 with
+            | mk res2 o2 =>
+              cases res2 with
+              | error x =>
+                refine ⟨n2 + n1, k1 + k2, ?_⟩
+                apply chain hrun1 n2
+                intro fuel; rw [ih2 fuel]; simp [hev2, after, afterS, Nat.add_assoc]
+              | ok rv =>
+                simp only []
+                have hrun2 : ∀ fuel, loop M obj code (fuel + (n2 + n1)) base stack ⟨env, out, polls, depth⟩ =
+                    loop M obj code fuel (base + (Expr.ident name).size + r.size) (rv :: lv :: stack) ⟨env, o2, polls + k1 + k2, depth⟩ := by
+                  apply chain hrun1 n2
+                  intro fuel; rw [ih2 fuel, hev2]; rfl
+                cases hb : binop M o lv rv with
+                | error x =>
+                  refine ⟨1 + (n2 + n1), k1 + k2 + 1, ?_⟩
+                  apply finish_instr hrun2 hop ctx.nd (Or.inr hol) 0 (by simp [storedArg, hol])
+                  intro fuel
+                  rw [step_binary_err M obj _ _ _ _ _ o hbin _ _ _ _ hb]
+                  simp [afterS, Nat.add_assoc]
+                | ok p =>
+                  obtain ⟨v, o3⟩ := p
+                  simp only []
+                  have hrun3 : ∀ fuel, loop M obj code (fuel + (1 + (n2 + n1))) base stack ⟨env, out, polls, depth⟩ =
+                      loop M obj code fuel (base + (Expr.ident name).size + r.size + 1) (v :: stack) ⟨env, o2 ++ o3, polls + k1 + k2 + 1, depth⟩ := by
+                    apply finish_instr hrun2 hop ctx.nd (Or.inr hol) 0 (by simp [storedArg, hol])
+                    intro fuel
+                    rw [step_binary_ok M obj _ _ _ _ _ o hbin _ _ _ _ _ hb]
+                    simp [Instr.size, hol]
+                  have hrun4 : ∀ fuel, loop M obj code (fuel + (1 + (1 + (n2 + n1)))) base stack ⟨env, out, polls, depth⟩ =
+                      loop M obj code fuel (base + (Expr.ident name).size + r.size + 1 + 3) (cn :: v :: stack) ⟨env, o2 ++ o3, polls + k1 + k2 + 1 + 1, depth⟩ := by
+                    apply finish_instr hrun3 hk ctx.nd (Or.inl harg) _ harg.symm
+                    intro fuel
+                    rw [hkop, step_constant M obj _ _ _ _ _ _ cn hget]
+                    simp [Instr.size, hkop, Op.length]
+                  refine ⟨1 + (1 + (1 + (n2 + n1))), k1 + k2 + 1 + 1 + 1, ?_⟩
+                  apply finish_instr hrun4 hset ctx.nd (Or.inr rfl) 0 (by simp [storedArg, Op.length])
+                  intro fuel
+                  rw [step_set]
+                  have hname : cn.inspect = name := by rw [hinsp]; simp [Value.inspect]
+                  simp [afterS, hname, Expr.size, hcomp, Instr.size, Op.length, Nat.add_assoc]
+    | _ => simp [stmtE] at hpure
   | _ => simp [stmtE] at hpure
 
 
@@ -1362,6 +1472,9 @@ mutual
     | .switchE v cs, h => by
       simp only [stmtE, Bool.and_eq_true] at h
       simp [normExpr, normExpr_pure v h.1, normCases_pure cs h.2]
+    | .infix op (.ident n) r, h => by
+      simp only [stmtE, Bool.and_eq_true] at h
+      simp [normExpr, normExpr_pure r h.2]
   theorem normCases_pure : ∀ (cs : List Case), pureCases cs = true → normCases cs = cs
     | [], _ => rfl
     | .mk d es b :: cs, h => by
@@ -1385,6 +1498,9 @@ theorem pureS_size_pos : ∀ (s : Stmt), pureS s = true → 1 ≤ s.size
   | .expr (.whileE c b), _ => by simp [Stmt.size, Expr.size]
   | .expr (.foreachE i x v b), _ => by simp [Stmt.size, Expr.size]
   | .expr (.switchE v cs), _ => by simp [Stmt.size, Expr.size]
+  | .expr (.infix op (.ident n) r), h => by
+    simp only [pureS, stmtE, Bool.and_eq_true] at h
+    simp [Stmt.size, Expr.size, h.1]
 
 /-- the result of a run, according to how the script's top-level block ends: running off the end yields
     null, `return` its value, an error that error -/
